@@ -5,7 +5,7 @@ ID = "C13"
 T = "paramiko.transport.Transport."
 TARGETS = [T + "accept", T + "close", "paramiko.transport.ServiceRequestingTransport.ensure_session",
            "paramiko.proxy.ProxyCommand.recv", T + "run::part[shutdown]", (T + "open_channel::part[wait-for-the-peer]", "polling", {})]
-REPLAY = {"*": "c13.replay_blocking"}
+REPLAY = {"*": "c13.replay_blocking", "_wait_for_send_window": "c13.sender_parked_when_the_link_ends"}
 
 
 def setup(E):
@@ -17,6 +17,19 @@ def setup(E):
     qn = T + 'open_channel::part[wait-for-the-peer]'
     TARGETS[-1] = (qn, 'polling', dict(E.contracts[qn], **{'+fields': {'paramiko.transport.Transport': {'_channels': 'opaque:ChanMap2'}}}))
     E.classdecl[E.resolve_class('paramiko.transport.Transport')]['fields'] = saved
+    # a sender parked on an exhausted channel window when the connection ends: _set_closed wakes it (notify_all) and the
+    # wait must then END - the loop contract of _wait_for_send_window (shared with C19 / C22 / C25) says: a waiter woken
+    # while closed or eof_sent holds leaves the loop, and nothing is granted
+    from contracts import channel
+    E2 = type(E)()
+    channel.declare_c22(E2)
+    wq = "paramiko.channel.Channel._wait_for_send_window"
+    TARGETS[:] = [t for t in TARGETS if not (isinstance(t, tuple) and t[1] == "woken-by-close")]
+    TARGETS.insert(len(TARGETS) - 1, (wq, "woken-by-close", dict(E2.contracts[wq], **{
+        "+replace": True, "+contracts": {k: v for k, v in E2.contracts.items() if k != wq},
+        "+fields": {k: dict(d["fields"]) for k, d in E2.classdecl.items()},
+        "+engine": {"monitors": E2.monitors, "ghost_types": dict(E2.ghost_types),
+                    "inline_ok": set(E2.inline_ok) | set(E.inline_ok)}})))
 
 
 CLAIMED = True
